@@ -297,6 +297,8 @@ def c05c(ctx):
             if isinstance(n, ast.BinOp) and isinstance(n.op, ast.Mult) and isinstance(n.left, ast.Constant) \
                     and isinstance(n.left.value, bytes) and len(n.left.value) == 1:
                 widths.append(try_const(n.right))
+            if is_call(n, 'write') and n.args and isinstance(n.args[0], ast.Constant) and isinstance(n.args[0].value, bytes):
+                widths.append(len(n.args[0].value))         # the entry written out as a literal
         ctx.check(widths and all(w == 5 for w in widths), 'BundleIndexV1.%s:entry-width' % mname,
                   'V1 index entries are read/written as 5 bytes', f,
                   fail='V1 index entry widths %s differ from the 5-byte slot' % widths)
